@@ -37,7 +37,8 @@ def expected_delay(k, d, dmax, rf, j):
     return base + rf * (2 * j - 1)
 
 
-def run_case(is_async, cause, recon, word, shutdown_at, extra, params, j):
+def run_case(is_async, cause, recon, word, shutdown_at, extra, params, j,
+             auth_mode='value'):
     """One fault sequence.  Returns list of (key, msg)."""
     d, dmax, rf, attempts = params
     v = []
@@ -85,9 +86,21 @@ def run_case(is_async, cause, recon, word, shutdown_at, extra, params, j):
                 nsp = '' if ns == '/' else ns + ','
                 out.append(['0%s{"sid":"S%d"}' % (nsp, sidn[0])])
             return out
+        auth_calls = []
+
+        def auth_fn():
+            # documented: invoked on every connection and reconnection
+            auth_calls.append(1)
+            return {'token': 't', 'n': len(auth_calls)}
+
+        async def auth_afn():
+            auth_calls.append(1)
+            return {'token': 't', 'n': len(auth_calls)}
+        auth_arg = AUTH if auth_mode == 'value' else (
+            auth_afn if (auth_mode == 'coroutine' and is_async) else auth_fn)
         r = w.connect(script=accept_frames(), url=URL, headers=HEADERS,
-                      auth=AUTH, transports=TRANSPORTS, namespaces=list(NSS),
-                      socketio_path=PATH)
+                      auth=auth_arg, transports=TRANSPORTS,
+                      namespaces=list(NSS), socketio_path=PATH)
         if r[0] != 'ok':
             raise common.HarnessError(f'initial connect failed {r}')
         w.take_outbox()
@@ -245,8 +258,14 @@ def run_case(is_async, cause, recon, word, shutdown_at, extra, params, j):
                           if (list(word) + ['ok'] * 10)[i] != 'fail') \
             if extra is None else None
         if n_transport is not None:
-            want = [('pkt', 0, ns, None, AUTH) for _ in range(n_transport)
-                    for ns in NSS]
+            if auth_mode == 'value':
+                want = [('pkt', 0, ns, None, AUTH)
+                        for _ in range(n_transport) for ns in NSS]
+            else:
+                # call #1 was the initial connection; every attempt that got
+                # a transport evaluates the callable afresh
+                want = [('pkt', 0, ns, None, {'token': 't', 'n': k + 2})
+                        for k in range(n_transport) for ns in NSS]
             if out != want:
                 bad('attempt-connect-packets', f'CONNECT packets {out}, '
                     f'expected {want}')
@@ -454,6 +473,11 @@ def run(tier, seed, result):
         for att in grid_att:
             cases.append(('transport-error', True, wd, None, None,
                           (1, 5, 0.5, att), jitters[0]))
+    # 2b. auth given as a callable / coroutine function
+    for wd in [(), ('fail',), ('refuse', 'ok'), ('fail', 'refuse', 'ok')]:
+        for mode in ('callable', 'coroutine'):
+            cases.append(('transport-error', True, wd, None, None, base,
+                          0.5, mode))
     # 3. timing grid x jitter over a fixed long word
     for d in grid_d:
         for dm in grid_max:
